@@ -18,3 +18,5 @@ def check(ctx):
         'result caching over all trees', 'that every returned entry exists']
     regen.cache_replay(ctx)
     regen.result_lattice(ctx)
+    from ..rules import pathops
+    pathops.check(ctx)
